@@ -17,12 +17,12 @@
 
    NackCopy      internal/rtpbuffer/packet_factory.go PacketFactoryCopy.NewPacket:
                  *header = header.Clone() (deep: CSRC and extension payloads),
-                 copy(*buffer, payload) into a pooled array                     -> Val
+                 copy of the payload into a pooled array                     -> Val
    NackNoCopy    PacketFactoryNoOp.NewPacket (nack.DisableCopy): keeps the
                  header pointer and the payload slice                           -> Ref  (documented exception)
    FlexFec       pkg/flexfec/encoder_interceptor.go: packetBuffer = append(..,
                  rtp.Packet{Header: header.Clone(), Payload: append([]byte(nil), payload...)}) -> Val
-   LeakyBucket   pkg/gcc/leaky_bucket_pacer.go Write: copy(*buf, payload); hdr := header.Clone() -> Val
+   LeakyBucket   pkg/gcc/leaky_bucket_pacer.go Write: copy of the payload into a pooled array; hdr := header.Clone() -> Val
    Pacing        pkg/pacing/interceptor.go: hdr := header.Clone(); pay := make+copy -> Val
    DumpSender    pkg/packetdump/default_packet_logger.go LogRTPPacket (from
                  sender_interceptor.go): Header: header.Clone(), Payload: append([]byte(nil), payload...) -> Val
